@@ -5,14 +5,14 @@ package pemreader
 //@ func PemReader.Read
 //@   props C07 C06
 //@   requires p != nil && p.Reader != nil
-//@   assigns *byteData, X.stream
+//@   assigns *byteData, X.stream, X.spos
 //@   ensures[C06] line_fits: err == nil ==> 0 <= r0 && r0 <= pemMaxLineLength && r0 <= len(byteData)
 
 //@ func PemReader.readNextBase64Line
 //@   props C07 C06
 //@   note termination of the armour-skipping recursion depends on ReadString consuming input (not modelled: see DESIGN C07)
 //@   requires p != nil && p.Reader != nil
-//@   assigns *byteData, X.stream
+//@   assigns *byteData, X.stream, X.spos
 //@   ensures[C06] line_fits: err == nil ==> 0 <= r0 && r0 <= pemMaxLineLength && r0 <= len(byteData)
 
 //@ func NewPemReader
@@ -23,4 +23,4 @@ package pemreader
 //@ func IsPemFile
 //@   props C07 C06
 //@   requires file != nil
-//@   assigns X.fs, X.stream
+//@   assigns X.fs, X.stream, X.spos
